@@ -552,7 +552,7 @@ def main():
                 continue
             report.violations.append({"sig": sig, "what": what, "replay": checklib.write_replay(PID, what, body)})
     report.samples.append({"pair": PAIRS_TOK[0], "schedule_bound": b})
-    need = [f"switches-{b['tok_switches']}", f"real-switches-{b['real_switches']}", f"gen-switches-{b['gen_switches']}", "switches-0"]
+    need = [f"switches-{b['tok_switches']}", f"real-switches-{b['real_switches']}", f"gen-switches-{b['gen_switches']}", "switches-0", "canaries-after-ast", "canaries-after-ParseError"]
     return report.finish(findings, required_witnesses=need)
 
 
